@@ -86,6 +86,9 @@ fn check_payload<F: Flv>(bytes: &[u8], space: &'static str, l: &mut Local, sh: &
         println!("  real decoder: {:?}", real.as_ref().map(|r| r.as_ref().map(|v| format!("{v:?}"))));
     }
     let rec = |key: &str, what: String| sh.sink.record(key, bytes, fl_tag(fl), || (what, case_json(fl, space, bytes)));
+    if matches!(real, Ok(Ok(_))) {
+        check_small_limits::<F>(bytes, space, l, sh, verbose);
+    }
     match (real, rp) {
         (Err(p), Ok(_)) => {
             rec("decode-panics-on-wire-format-payload", format!("{} decoder panicked ({p}) on a payload the wire format accepts: {}", fl.name(), mc_core::hex(bytes)));
@@ -137,6 +140,52 @@ fn check_payload<F: Flv>(bytes: &[u8], space: &'static str, l: &mut Local, sh: &
     }
 }
 
+/// Depth limits under which the re-encode clause is re-checked (the default limits 64 / 24 are out of reach of short payloads).
+pub const SMALL_LIMITS: [usize; 4] = [1, 2, 3, 4];
+
+/// "Any byte string accepted as a value payload re-encodes to exactly the same bytes" — at small depth limits:
+/// whenever the real decoder accepts `bytes` at limit L, the real encoder with the same limit L must give `bytes` back.
+fn check_small_limits<F: Flv>(bytes: &[u8], space: &'static str, l: &mut Local, sh: &Shared, verbose: bool) {
+    let fl = F::FL;
+    for &limit in &SMALL_LIMITS {
+        l.eval();
+        let rec = |key: &str, what: String| {
+            sh.sink.record(key, bytes, fl_tag(fl) * 1000 + limit as u64, || (what, json!({"flavour": fl.name(), "space": space, "bytes": mc_core::hex(bytes), "limit": limit})))
+        };
+        match mc_core::catch(|| F::decode(bytes, limit)) {
+            Ok(Ok(v)) => match mc_core::catch(|| F::encode(&v, limit)) {
+                Ok(Ok(e)) => {
+                    if verbose {
+                        println!("  limit {limit}: accepted, re-encoded {}", mc_core::hex(&e));
+                    }
+                    if e == bytes {
+                        l.class("small-limit:accepted-and-reencoded-identically");
+                    } else {
+                        rec("reencoding-at-limit-differs", format!("{} payload {} is accepted at depth limit {limit} but re-encodes (same limit) to {}", fl.name(), mc_core::hex(bytes), mc_core::hex(&e)));
+                    }
+                }
+                Ok(Err(e)) => {
+                    if verbose {
+                        println!("  limit {limit}: accepted, encoder fails with {e:?}");
+                    }
+                    rec(
+                        "accepted-at-limit-but-not-reencodable",
+                        format!("{} payload {} is accepted by the decoder at depth limit {limit} as {v:?}, but the encoder with the same limit fails with {e:?}", fl.name(), mc_core::hex(bytes)),
+                    )
+                }
+                Err(p) => rec("reencode-panics", format!("{} payload {} is accepted at depth limit {limit} but encoding its value panics: {p}", fl.name(), mc_core::hex(bytes))),
+            },
+            Ok(Err(e)) => {
+                if verbose {
+                    println!("  limit {limit}: rejected with {e:?}");
+                }
+                l.class("small-limit:rejected");
+            }
+            Err(_) => l.info("decoder panicked at a small depth limit (C21's clause, not C20's)"),
+        }
+    }
+}
+
 /// (a): one value tree.
 fn check_tree<F: Flv>(r: &RefTree, l: &mut Local, sh: &Shared, verbose: bool) -> Vec<u8> {
     l.eval();
@@ -179,6 +228,7 @@ fn check_tree<F: Flv>(r: &RefTree, l: &mut Local, sh: &Shared, verbose: bool) ->
             }
         }
     }
+    check_small_limits::<F>(&refenc, "a-encoding", l, sh, verbose);
     l.sample(|| json!({"space": "a", "flavour": fl.name(), "tree": mc_core::truncate(&format!("{r:?}"), 160), "encoding": mc_core::hex(&refenc[..refenc.len().min(48)])}));
     refenc
 }
@@ -227,6 +277,7 @@ fn check_inconsistent<F: Flv>(r: &RefTree, l: &mut Local, sh: &Shared) {
 }
 
 struct FlavourCounts {
+    ladders: u64,
     trees: u64,
     distinct_encodings: u64,
     inconsistent: u64,
@@ -344,6 +395,20 @@ fn run_flavour<F: Flv>(ctx: &Ctx, sh: &Shared, cov: &mut Map<String, Value>) -> 
         extra += 512;
     }
 
+    // ---- (d) depth ladders (the spaces of C21): default limit and small limits
+    let t_e = ctx.elapsed_s();
+    let max_chain = ctx.pick(4usize, 6usize);
+    let lleaves = ladder_leaves(fl);
+    let n_ladders = chain_count(max_chain) * lleaves.len() as u64;
+    par_range(ctx, n_ladders, 64, |i, l| {
+        let leaf = &lleaves[(i % lleaves.len() as u64) as usize];
+        let mut chain = Vec::with_capacity(8);
+        nth_chain(i / lleaves.len() as u64, &mut chain);
+        let bytes = ref_encode(&build_ladder(&chain, leaf), fl);
+        check_payload::<F>(&bytes, "d", l, sh, false);
+    });
+    let t_d = ctx.elapsed_s();
+
     cov.insert(
         format!("space_{}", fl.name()),
         json!({
@@ -354,10 +419,12 @@ fn run_flavour<F: Flv>(ctx: &Ctx, sh: &Shared, cov: &mut Map<String, Value>) -> 
             "mutation_bases(<=40 bytes)": bases.load(Ordering::Relaxed),
             "byte_strings": n_full + n_body,
             "extra_payloads(size forms, address entity bytes)": extra,
-            "seconds(a+c, b, e)": [t_a - t0, t_b - t_a, ctx.elapsed_s() - t_b],
+            "ladder_payloads(chains 1..=max x leaves)": n_ladders,
+            "ladder_max_chain": max_chain,
+            "seconds(a+c, b, e, d)": [t_a - t0, t_b - t_a, t_e - t_b, t_d - t_e],
         }),
     );
-    FlavourCounts { trees: n, distinct_encodings: distinct, inconsistent: bad.len() as u64, strings: n_full + n_body, mutation_bases: bases.load(Ordering::Relaxed) }
+    FlavourCounts { ladders: n_ladders, trees: n, distinct_encodings: distinct, inconsistent: bad.len() as u64, strings: n_full + n_body, mutation_bases: bases.load(Ordering::Relaxed) }
 }
 
 /// Informational: in-memory custom values that the constructors refuse but the public enum fields allow.
@@ -405,6 +472,8 @@ pub fn run(ctx: Ctx) -> ! {
     cov.insert("mutation_bases".into(), json!(c0.mutation_bases + c1.mutation_bases + c2.mutation_bases));
     cov.insert("mutations".into(), json!(sh.mutations.load(Ordering::Relaxed)));
     cov.insert("mutations_accepted".into(), json!(sh.accepted_c.load(Ordering::Relaxed)));
+    cov.insert("ladder_payloads".into(), json!(c0.ladders + c1.ladders + c2.ladders));
+    cov.insert("small_depth_limits".into(), json!(SMALL_LIMITS));
     cov.insert("tree_space".into(), json!(TreeSpace::describe(!ctx.quick())));
     let quick = ctx.quick();
     sh.sink.flush(&ctx);
@@ -412,10 +481,12 @@ pub fn run(ctx: Ctx) -> ! {
         "x3 flavours. (a) every value tree of the tree space (see coverage.tree_space); (b) every byte string of length <= 3 over the 16-symbol alphabet \
          {{5B 5C 4D 00 01 02 07 0C 20 21 22 23 80 C0 FF 83}} and the flavour prefix followed by every string of length <= {} over \
          {{00 01 02 03 07 0C 20 21 22 23 41 80 83 87 C0 FF}}; (c) every single-point mutation (substitute each position with each of {} values, delete, duplicate, \
-         truncate at each length, append each value) of every (a)-encoding of <= 40 bytes; (e) every 2-byte size form on a string header, every first byte of a static manifest address. \
+         truncate at each length, append each value) of every (a)-encoding of <= 40 bytes; (e) every 2-byte size form on a string header, every first byte of a static manifest address; (d) every chain of 1..={} wrappers out of 7 around one leaf of every kind, the four empty containers and a byte array. \
+         Every payload the decoder accepts at the default limit (and every (a)-encoding) is additionally decoded at depth limits 1,2,3,4: whenever accepted at limit L, encoding with the same L must give the input back. \
          A case is one tree or one payload. non-trivial = distinct value trees (by encoding) + distinct (b) strings accepted by decoder and reference",
         if quick { 6 } else { 7 },
-        if quick { "the 12 structurally significant" } else { "all 256" }
+        if quick { "the 12 structurally significant" } else { "all 256" },
+        if quick { 4 } else { 6 }
     );
     ctx.finish(
         Level::Exploration,
@@ -425,7 +496,7 @@ pub fn run(ctx: Ctx) -> ! {
         cov,
         &[
             "std::str::from_utf8 decides UTF-8 validity for the reference (platform, not code under test)",
-            "payloads are decoded at the flavour's default depth limit (64 / 64 / 24); nothing enumerated here is deeper than 4 (depth behaviour is C21's)",
+            "acceptance is compared with the wire format at the flavour's default depth limit (64 / 64 / 24); at limits 1..4 only the re-encode clause is checked (which depths are acceptable is C21's clause)",
             "in-memory custom values that no payload denotes (built through public enum fields, bypassing the constructors) are outside the statement's domain; reported as informational",
             "payloads longer than 40 bytes are covered through (a) and the size-form sweep only",
         ],
